@@ -4,8 +4,8 @@ use std::io::{BufWriter, Read, Write};
 use std::path::{Path, PathBuf};
 use std::{env, fs, io};
 use xml_dom::{
-    AsNode, Attr, AttrMut, CharacterData, Document, DocumentMut, Element, NamedNodeMapMut, Node,
-    PrettyPrint,
+    AsNode, AttrMut, CharacterData, Document, DocumentMut, Element, ElementMut, Node, PrettyPrint,
+    ProcessingInstruction,
 };
 
 struct Argument {
@@ -227,16 +227,6 @@ where
     T: Clone + xml_dom::Node + xml_dom::NodeMut,
 {
     match child {
-        xml_dom::XmlNode::Attribute(v) => {
-            let mut n = dom.create_attribute(v.name().as_str())?;
-            n.borrow_mut().set_value(v.value()?.as_str())?;
-
-            if let Some(mut attr) = node.attributes() {
-                attr.borrow_mut().set_named_item(n)?;
-            } else {
-                return Err("Not supported XML node type.".into());
-            }
-        }
         xml_dom::XmlNode::CData(v) => {
             let n = dom.create_cdata_section(v.data()?.as_str());
             node.append_child(n.as_node())?;
@@ -246,13 +236,26 @@ where
             node.append_child(n.as_node())?;
         }
         xml_dom::XmlNode::Element(v) => {
-            let n = dom.create_element(v.tag_name().as_str())?;
+            let (name, attributes) = start_tag(&v)?;
+            let n = dom.create_element(name.as_str())?;
             node.append_child(n.as_node())?;
 
-            if let Some(attributes) = v.attributes() {
-                for descendant in attributes.iter() {
-                    append_child_to_tree(dom, n.clone(), descendant.as_node())?;
+            let mut names = vec![];
+            for (name, value) in attributes {
+                // Attributes are kept by local part: the later one would replace the earlier one.
+                let local_part = name.rsplit(':').next().unwrap_or_default().to_string();
+                if names.contains(&local_part) {
+                    return Err(format!(
+                        "Not supported attributes with the same local part `{}`.",
+                        local_part
+                    )
+                    .into());
                 }
+                names.push(local_part);
+
+                let mut attribute = dom.create_attribute(name.as_str())?;
+                attribute.borrow_mut().set_value(value.as_str())?;
+                n.set_attribute_node(attribute)?;
             }
 
             for descendant in v.child_nodes().iter() {
@@ -260,7 +263,16 @@ where
             }
         }
         xml_dom::XmlNode::EntityReference(v) => {
-            let n = dom.create_entity_reference(v.node_name().as_str())?;
+            // A character reference is named by its own text and cannot be created as a node.
+            let name = v.node_name();
+            if name.starts_with('&') {
+                return Err(format!("Not supported character reference `{}`.", name).into());
+            }
+            let n = dom.create_entity_reference(name.as_str())?;
+            node.append_child(n.as_node())?;
+        }
+        xml_dom::XmlNode::PI(v) => {
+            let n = dom.create_processing_instruction(v.target().as_str(), v.data().as_str())?;
             node.append_child(n.as_node())?;
         }
         xml_dom::XmlNode::Text(v) => {
@@ -273,4 +285,38 @@ where
     }
 
     Ok(())
+}
+
+// The qualified name and the attributes of `element` as written (namespace declarations included,
+// values with their references), read from the start tag of its serialization: `tag_name`,
+// `Attr::name` and `attributes` give local parts only and leave the namespace declarations out.
+fn start_tag(
+    element: &xml_dom::XmlElement,
+) -> Result<(String, Vec<(String, String)>), Box<dyn Error>> {
+    let text = element.to_string();
+    let unsupported = || format!("Not supported element `{}`.", element.tag_name());
+
+    let rest = text.strip_prefix('<').ok_or_else(unsupported)?;
+    let (name, mut rest) = rest
+        .find([' ', '/', '>'])
+        .map(|v| rest.split_at(v))
+        .ok_or_else(unsupported)?;
+
+    let mut attributes = vec![];
+    loop {
+        rest = rest.trim_start();
+        if rest.starts_with('>') || rest.starts_with("/>") {
+            break;
+        }
+
+        let (attribute, value) = rest.split_once('=').ok_or_else(unsupported)?;
+        let quote = value.chars().next().ok_or_else(unsupported)?;
+        let (value, tail) = value[quote.len_utf8()..]
+            .split_once(quote)
+            .ok_or_else(unsupported)?;
+        attributes.push((attribute.to_string(), value.to_string()));
+        rest = tail;
+    }
+
+    Ok((name.to_string(), attributes))
 }
